@@ -164,7 +164,7 @@ CHECKS['C07'] = dict(
           'transaction flag of its own statements (C07_batch_flag_is_its_statements_flag), a NewTransactionSQL group starts '
           'a batch, an evolution of ordinary statements is one transactional batch and hence atomic at every crash point '
           '(C07_ordinary_evolution_is_atomic), also when a non-transactional statement follows '
-          '(C07_statements_before_no_transaction_group); which flag the source yields is read by the translator '
+          '(C07_statements_before_no_transaction_group), a NewTransactionSQL group is one batch of its own (C07_new_transaction_group_is_one_batch; the flag assignments of _prepare_sql are read from the source: C07_source_prepare_sql_flags); which flag the source yields is read by the translator '
           '(C07_source_batch_flag; counterexample C07_cex_next_batch_flag); correspondence `transaction_batches` on generated groups. '
           'On the real code a database error is injected at EVERY write-statement index of every generated run '
           '(rebuilds, index creation, model creation, deferred SQL, bookkeeping): snapshots, error payload, retry.'),
